@@ -521,6 +521,7 @@ func (p *probeRun) checkAll(step string) {
 			}
 		}
 		mustVsGet(p, n)
+		setUnsupported(p, n)
 		val, verr := n.Value()
 		switch {
 		case n.IsArray():
@@ -1300,4 +1301,41 @@ func mustVsGet(p *probeRun, n *ajson.Node) {
 		n.IsArray() != (t == ajson.Array) || n.IsObject() != (t == ajson.Object) {
 		p.fail("C02", "must-vs-get", "the Is… predicates disagree with Type() at "+n.Path(), fmt.Sprint(t), "")
 	}
+}
+
+// setUnsupported: Set with a value of a type the library does not take reports an error and changes nothing (C15); Paths lists
+// Path() of each node; Must passes a node through and panics on an error.
+func setUnsupported(p *probeRun, n *ajson.Node) {
+	p.o.Check("C15", "set-unsupported")
+	before := treeFP(rootOf(n))
+	for _, v := range []interface{}{struct{}{}, []int{1}, map[string]int{"a": 1}, complex(1, 1), []string{"a"}, &struct{ A int }{1}, []byte("x"), uintptr(1)} {
+		if err := n.Set(v); err == nil {
+			p.fail("C15", "set-unsupported", fmt.Sprintf("Set(%T) succeeded", v), "error", "nil")
+		}
+	}
+	if after := treeFP(rootOf(n)); after != before {
+		p.fail("C15", "set-unsupported", "a rejected Set(value of an unsupported type) changed the tree", firstDiff(before, after), "")
+	}
+	p.o.Check("C16", "path-roundtrip")
+	kids := n.Inheritors()
+	paths := ajson.Paths(append([]*ajson.Node{n}, kids...))
+	if len(paths) != len(kids)+1 || paths[0] != n.Path() {
+		p.fail("C16", "path-roundtrip", "Paths(nodes) is not the list of their Path()", n.Path(), fmt.Sprint(paths))
+	}
+	for i, c := range kids {
+		if paths[i+1] != c.Path() {
+			p.fail("C16", "path-roundtrip", "Paths(nodes) is not the list of their Path()", c.Path(), paths[i+1])
+		}
+	}
+	if got := ajson.Must(n, nil); got != n {
+		p.fail("C02", "must-vs-get", "Must(node, nil) is not the node", "", "")
+	}
+	func() {
+		defer func() {
+			if recover() == nil {
+				p.fail("C02", "must-vs-get", "Must(node, err) does not panic", "panic", "return")
+			}
+		}()
+		ajson.Must(n, fmt.Errorf("x"))
+	}()
 }
